@@ -1033,4 +1033,13 @@ theorem C13_reachable_creation_variants (ops : List (Op ⊕ Forest.COp)) :
     fun h => ⟨C13_xpath_stripped a b va vb la lb da db h,
       fun cmp => C13_xpath_stripped_cmp cmp a b xa xb da db h⟩⟩
 
+/-- ⟦C13_inv_iff⟧ **`deep_equal` is canonical-form equivalence from the invariant alone**: between any two nodes of
+    ANY forest with `Forest.Inv` (however it was reached). -/
+theorem C13_inv_iff (f : Forest) (hi : f.Inv) :
+    ∀ r₁ ∈ f.roots, ∀ r₂ ∈ f.roots,
+    ∀ (p₁ p₂ : Path) (a b : Tree), r₁.erase.at? p₁ = some a → r₂.erase.at? p₂ = some b →
+      (deepEqual a b = true ↔ canon a = canon b) :=
+  fun _ h₁ _ h₂ _ _ a b ha hb =>
+    C13_iff a b (Reach.compare_hyps_root hi h₁ ha).1 (Reach.compare_hyps_root hi h₂ hb).1
+
 end XotModel.Props
